@@ -146,10 +146,14 @@ class Mailbox:
         # if the nameplate is still allocated we'll get a foreign-key
         # failure when trying to delete the mailbox, so get rid of
         # those first
-        db.execute("DELETE FROM `nameplate_sides` WHERE `side`=?",
-                   (side,))
-        db.execute("DELETE FROM `nameplates` WHERE `mailbox_id`=?",
-                   (self._mailbox_id,))
+        np_rows = db.execute("SELECT * FROM `nameplates`"
+                             " WHERE `app_id`=? AND `mailbox_id`=?",
+                             (self._app_id, self._mailbox_id)).fetchall()
+        for np_row in np_rows:
+            db.execute("DELETE FROM `nameplate_sides` WHERE `nameplates_id`=?",
+                       (np_row["id"],))
+            db.execute("DELETE FROM `nameplates` WHERE `id`=?",
+                       (np_row["id"],))
         # remove mailbox content
         db.execute("DELETE FROM `messages` WHERE `mailbox_id`=?",
                    (self._mailbox_id,))
